@@ -50,6 +50,14 @@ TEMPLATE_EXPECT = {"template_in_expr": ["L|s:49"]}
 # modifier sits inside a larger expression or declaration, so that mis-grouping or dropped members show up.  The oracle is
 # the twin's own trace on the same interpreter AND the fixed expectation.
 TWINS = [
+    # arrow functions with a return type (untyped parameter list) where `:` also belongs to a conditional expression
+    ("arrow_rettype_in_consequent", "const c: any = 1; const f: any = c ? (x): {T} => x + 1 : null; LOG(f(2));", "const c = 1; const f = c ? (x) => x + 1 : null; LOG(f(2));", ["L|n:3"]),
+    ("arrow_rettype_in_alternate", "const c: any = 0; const f: any = c ? null : (x): {T} => x + 1; LOG(f(2));", "const c = 0; const f = c ? null : (x) => x + 1; LOG(f(2));", ["L|n:3"]),
+    ("arrow_rettype_in_call_in_consequent", "const c: any = 1; LOG(c ? [1, 2].map((x): {T} => x * 2) : []);", "const c = 1; LOG(c ? [1, 2].map((x) => x * 2) : []);", ["L|a[n:2;n:4]"]),
+    ("arrow_rettype_nested_conditional", "const n: any = 3; const f: any = n > 1 ? n > 5 ? null : (a, b): {T} => a * b : null; LOG(f(2, 5));", "const n = 3; const f = n > 1 ? n > 5 ? null : (a, b) => a * b : null; LOG(f(2, 5));", ["L|n:10"]),
+    ("arrow_rettype_noparams_in_consequent", "const c: any = 1; const f: any = c ? (): {T} => 7 : null; LOG(f());", "const c = 1; const f = c ? () => 7 : null; LOG(f());", ["L|n:7"]),
+    ("conditional_paren_then_arrow_alternate", "const a: any = 0; const f: any = a ? (1) : (c: {T}) => c; LOG(f(4));", "const a = 0; const f = a ? (1) : (c) => c; LOG(f(4));", ["L|n:4"]),
+    ("arrow_rettype_object_type", "const g: any = (x): {{ v: {T} }} => ({{ v: x }}); LOG(g(1).v);", "const g = (x) => ({{ v: x }}); LOG(g(1).v);", ["L|n:1"]),
     ("angle_operand_mul_add", "LOG(2 * <{T}>3 + 4);", "LOG(2 * 3 + 4);", ["L|n:10"]),
     ("angle_operand_sub_sub", "LOG(10 - <{T}>3 - 4);", "LOG(10 - 3 - 4);", ["L|n:3"]),
     ("angle_operand_cond", 'LOG(true && <{T}>false ? "y" : "n");', 'LOG(true && false ? "y" : "n");', ["L|s:110"]),
